@@ -33,9 +33,11 @@ func H_C09_sign1() {
 	var err error
 	if tagged {
 		vAssume(m.UnmarshalCBOR(vSer(nnTag(18, body, 0))) == nil)
+		vOtherTraffic("x")
 		out, err = m.MarshalCBOR()
 	} else {
 		vAssume((*UntaggedSign1Message)(&m).UnmarshalCBOR(vSer(body)) == nil)
+		vOtherTraffic("x")
 		out, err = (*UntaggedSign1Message)(&m).MarshalCBOR()
 	}
 	vAssert("sign1: an accepted message re-encodes", err == nil)
